@@ -4,8 +4,6 @@
 
 package helper
 
-import "math"
-
 // Abs calculates the absolute value of each value in a channel of float64.
 //
 // Example:
@@ -14,6 +12,15 @@ import "math"
 //	fmt.Println(helper.ChanToSlice(abs)) // [10, 20, 4, 5]
 func Abs[T Number](c <-chan T) <-chan T {
 	return Apply(c, func(n T) T {
-		return T(math.Abs(float64(n)))
+		// Computed in T itself: a detour through float64 rounds integers beyond 2^53.
+		if n < 0 {
+			return -n
+		}
+
+		if n == 0 {
+			return 0 // negative zero becomes zero, as with math.Abs
+		}
+
+		return n
 	})
 }
